@@ -132,7 +132,7 @@ static u64 argval(const char *a) {
 struct kstat { u64 dev, ino, nlink; u32 mode, uid, gid, pad; u64 rdev; i64 size, blksize, blocks; u64 t[6]; i64 unused[3]; };
 
 static int arity(const char *op) {
-  static const char *a0[] = {"dfl", "killlast", "state", "wait", "pause", "ignore", "block", "setsid", "flush", "segv", 0};
+  static const char *a0[] = {"join", "dfl", "killlast", "state", "wait", "pause", "ignore", "block", "setsid", "flush", "segv", 0};
   static const char *a1[] = {"exit", "raise", "fds", "sleep", "burn", "alloc", "fork", "vfork", "thread", "daemon", "out", "pid", "ls", "statfs", "mods", "kill", "threadraise", "cat", "stack", 0};
   static const char *a2[] = {"write", "grow", "rlim", 0};
   static const char *a3[] = {"rv", 0};
@@ -147,6 +147,7 @@ static int arity(const char *op) {
 static char **av;
 static int ac;
 static i64 lastpid;
+static volatile int live_threads;
 
 static int skip(int i, int k) { /* index after k ops starting at i */
   while (k-- > 0 && i < ac) {
@@ -240,7 +241,7 @@ static void do_mods(const char *dir) {
 static void thread_exit(void) { for (;;) sc(SYS_exit, 0, 0, 0, 0, 0, 0); }
 
 struct targ { int i, end; };
-static void thread_main(struct targ *t) { run(t->i, t->end); oflush(); thread_exit(); }
+static void thread_main(struct targ *t) { run(t->i, t->end); oflush(); __sync_fetch_and_sub(&live_threads, 1); thread_exit(); }
 
 static i64 spawn_thread(int i, int end) {
   char *stk = (char *)sc(SYS_mmap, 0, 256 * 1024, 3, 0x22, -1, 0);
@@ -272,7 +273,7 @@ static void run(int i, int end) {
     if (seq(op, "fork") || seq(op, "vfork") || seq(op, "thread") || seq(op, "daemon")) {
       int inner = (int)num(a1), body = i + 2, after = skip(body, inner);
       oflush();
-      if (seq(op, "thread")) { i64 r = spawn_thread(body, after); os("thread "); oi(r); nl(); i = after; continue; }
+      if (seq(op, "thread")) { __sync_fetch_and_add(&live_threads, 1); i64 r = spawn_thread(body, after); if (r < 0) __sync_fetch_and_sub(&live_threads, 1); os("thread "); oi(r); nl(); i = after; continue; }
       i64 pid = sc(seq(op, "vfork") ? SYS_vfork : SYS_fork, 0, 0, 0, 0, 0, 0);
       if (pid == 0) {
         if (seq(op, "daemon")) {
@@ -326,6 +327,7 @@ static void run(int i, int end) {
     }
     else if (seq(op, "rlim")) { u64 l[2] = {0, 0}; i64 r = sc(SYS_prlimit64, 0, (i64)num(a1), 0, (i64)l, 0, 0); (void)a2; os("rlim "); oi(r); oc(' '); ou(l[0]); oc(' '); ou(l[1]); nl(); }
     else if (seq(op, "ignore")) { u64 sa[4] = {1 /*SIG_IGN*/, 0, 0, 0}; for (int s = 1; s <= 64; s++) sc(SYS_rt_sigaction, s, (i64)sa, 0, 8, 0, 0); }
+    else if (seq(op, "join")) { for (int q = 0; q < 20000 && live_threads > 0; q++) msleep(1); }
     else if (seq(op, "dfl")) { u64 sa[4] = {0 /*SIG_DFL*/, 0, 0, 0}; for (int s = 1; s <= 64; s++) sc(SYS_rt_sigaction, s, (i64)sa, 0, 8, 0, 0); }
     else if (seq(op, "block")) { u64 m = ~0UL; sc(SYS_rt_sigprocmask, 0, (i64)&m, 0, 8, 0, 0); }
     else if (seq(op, "setsid")) { os("setsid "); oi(sc(SYS_setsid, 0, 0, 0, 0, 0, 0)); nl(); }
